@@ -184,7 +184,7 @@ class C14(Prop):
                "the lexer model RelLex (cone C09) and its totality lemma",
                "std: str::split(char), str::trim (char::is_whitespace = White_Space), Peekable iterator as the list of remaining tokens",
                "debversion 0.4.4 Version::from_str / Display / pub fields modelled in Coq (dv_parse, dv_print; the regex read by hand), validated by the debversion stream (incl. non-ASCII digits, u32 overflow) and a third reading in Python; the general theorems do not depend on it",
-               "conversions: coq/model/RelConv.v composes cone C11's model of RelationBuilder::build / Entry::from / Relations::from (RelEdit.v, rowan store model) and cone C10's accessor and reader models (RelAcc.v, RelParse.v); Relation::version is transcribed again with the structured debversion model; tied to the code by the rel-lossy-conv stream (text, way back, reader, at relation / entry / field level, valid and malformed values)",
+               "conversions: coq/model/RelConv.v composes cone C11's model of RelationBuilder::build (builder_build_v fixed: in-place splices, /repo 5517d72) / Entry::from / Relations::from (RelEdit.v, rowan store model) and cone C10's accessor and reader models (RelAcc.v, RelParse.v); Relation::version is transcribed again with the structured debversion model; tied to the code by the rel-lossy-conv stream (text, way back, reader, at relation / entry / field level, valid and malformed values)",
                "extraction (ExtrOcamlBasic only), OCaml runner, Rust harness, Python driver; the value syntax is implemented three times (OCaml, Rust, Python)"]
     assumptions = ["inputs are valid UTF-8 (Rust &str)",
                    "round trip: component strings valid for their token class (non-empty, identifier characters); every entry has at least one alternative; each version's printed form consists of identifier characters and ':' and is read back as the same version by debversion (proved for the modelled debversion on Policy-canonical versions: ':' only with an epoch, '-' only with a revision, epoch <= u32::MAX)",
